@@ -52,19 +52,18 @@ def unit_xsolution_save(twin=False):
         present = tm.lt(fld0(ex, s, "MIN_TOTAL", "R"), tot)
         hy = list(s.pc)
         tw = [(ix, v) for ix, v in writes(s, ("m2", "#mval", "R", "S")) if "Get_totals" in repr(ix[0])]
-        if B.z3_prove(hy, tm.and_(aqueous, present))[0] == "proved":
-            saved += 1
-            if len(tw) != 1:
-                r.add("totals.element_saved_once", FAILED, "symex", 0, repr(tw)[:200]); continue
-            (mp, key), val = tw[0]
-            name = tm.app("string_of", (fld0(ex, s, "name", "P", fld0(ex, s, "elt", "P", mi)),), "S")
-            r.add("totals.key_is_the_master's_element_name", DISCHARGED if key == name else FAILED, "syntactic", 0, repr(key)[:160], kind="post")
-            U.discharge_eq_real(r, "totals.value==master_total", hy, val, tot if not twin else tot + tot)
-        elif B.z3_prove(hy, tm.not_(tm.and_(aqueous, present)))[0] == "proved":
-            skipped += 1
-            r.add("totals.others_save_nothing", DISCHARGED if not tw else FAILED, "symex", 0, repr(tw)[:160], kind="frame")
-        else:
-            r.add("totals.case_decided", UNDECIDED, "z3", 0, repr(s.pc)[:300])
+        for hy, saves in cases(hy, tm.and_(aqueous, present)):
+            if saves:
+                saved += 1
+                if len(tw) != 1:
+                    r.add("totals.element_saved_once", FAILED, "symex", 0, repr(tw)[:200]); continue
+                (mp, key), val = tw[0]
+                name = tm.app("string_of", (fld0(ex, s, "name", "P", fld0(ex, s, "elt", "P", mi)),), "S")
+                r.add("totals.key_is_the_master's_element_name", DISCHARGED if key == name else FAILED, "syntactic", 0, repr(key)[:160], kind="post")
+                U.discharge_eq_real(r, "totals.value==master_total", hy, val, tot if not twin else tot + tot)
+            else:
+                skipped += 1
+                r.add("totals.others_save_nothing", DISCHARGED if not tw else FAILED, "symex", 0, repr(tw)[:160], kind="frame")
     r.add("reach.totals", DISCHARGED if saved and skipped else UNDECIDED, "symex", 0, "%d saving, %d skipping paths" % (saved, skipped), kind="vacuity")
     r.assumptions += ["setters/getters of cxxSolution are plain field accessors (C10 covers their serialisation)", "isotopes, species maps and the Pitzer gamma list are not under this contract"]
     return r
